@@ -120,6 +120,34 @@ pub fn scenarios(tier: &str) -> Vec<Scenario> {
 			}
 		}
 	}
+	// longer histories with every commit drained (no stage interleaving): slots of one size class freed and taken again
+	// by other keys, clean reopen in between (the free list as persisted must be the free list in memory)
+	{
+		let kk = |i: u32| B::pat(7, 3300 + i);
+		let cfg = Config::new(vec![ColSpec::hash()]);
+		let mut alpha: Vec<Tx> = vec![];
+		for i in 0..3 {
+			alpha.push(vec![(0, Op::Set(kk(i), B::pat(10, 40 + i)))]);
+			alpha.push(vec![(0, Op::Del(kk(i)))]);
+		}
+		alpha.push(vec![(0, Op::Set(kk(0), B::pat(10, 50))), (0, Op::Del(kk(1)))]);
+		let n = if thorough { 6 } else { 4 };
+		let mut s = Scenario::new(&format!("hashed/drained-slot-reuse-d{}", n), cfg.clone(), alpha.clone());
+		s.universe = universe_of(&cfg, &alpha, &[]);
+		s.max_commits = n;
+		s.max_rejects = 0;
+		s.max_reopen = 1;
+		s.stages = vec![];
+		s.drain_event = true;
+		s.pm = false;
+		s.filter = Some(std::sync::Arc::new(|hist: &[Ev], ev: &Ev| match (hist.last(), ev) {
+			(Some(Ev::Commit(_)), Ev::Drain) => true,
+			(Some(Ev::Commit(_)), _) => false,
+			(_, Ev::Drain) => false,
+			_ => true,
+		}));
+		v.push(s);
+	}
 	// while the index grows: a key still in the old index is removed / replaced, chain members go to the new index,
 	// two commits may be queued before the first is processed (commit ids and record ids have drifted apart: the
 	// reindex batches take record ids of their own)
